@@ -61,21 +61,21 @@ Definition after_exit (k : kind) (f : fstate) : fstate :=
 
 (* the lock is granted for [a] with the file in state f: enter, and leave at
    once if there is no yield inside *)
-Definition fenter (st : fst_) (t : nat) (a : acq) (rest : list acq) (f : fstate)
+Definition fenter (st : fst_) (t : nat) (k : kind) (a : acq) (rest : list acq) (f : fstate)
   : fst_ * list fevent :=
   match ay a with
-  | S y => (fset st t (mkFTask (a :: rest) (match ak a with KR => FInR y | KW => FInW y end) false) f,
-            [FEnter (ak a) t])
-  | O => (fset st t (mkFTask rest FStart false) (after_exit (ak a) f),
-          [FEnter (ak a) t; FExit (ak a) t])
+  | S y => (fset st t (mkFTask (a :: rest) (match k with KR => FInR y | KW => FInW y end) false) f,
+            [FEnter k t])
+  | O => (fset st t (mkFTask rest FStart false) (after_exit k f),
+          [FEnter k t; FExit k t])
   end.
 
 (* one more round of the retry loop, or TimeoutError when the ladder of
    [n] delays is used up *)
-Definition fretry (n : nat) (st : fst_) (t : nat) (a : acq) (rest : list acq) (i : nat) (f : fstate)
-  : fst_ * list fevent :=
-  if Nat.ltb i n then (fset st t (mkFTask (a :: rest) (FSleep (ak a) i) false) f, [])
-  else (fset st t (mkFTask rest FStart false) f, [FTimeout (ak a) t]).
+Definition fretry (n : nat) (st : fst_) (t : nat) (k : kind) (a : acq) (rest : list acq) (i : nat)
+           (f : fstate) : fst_ * list fevent :=
+  if Nat.ltb i n then (fset st t (mkFTask (a :: rest) (FSleep k i) false) f, [])
+  else (fset st t (mkFTask rest FStart false) f, [FTimeout k t]).
 
 Definition frun (n : nat) (st : fst_) (t : nat) : option (fst_ * list fevent) :=
   match nth_error (ftasks st) t with
@@ -90,15 +90,15 @@ Definition frun (n : nat) (st : fst_) (t : nat) : option (fst_ * list fevent) :=
                    let '(ok, f1) := check_lock (file st) in
                    if ok then
                      (* writer: _try_lock() creates the file, which is absent now *)
-                     Some (fenter st t a rest (match ak a with KW => Fresh | KR => f1 end))
-                   else Some (fretry n st t a rest 0 f1)
+                     Some (fenter st t (ak a) a rest (match ak a with KW => Fresh | KR => f1 end))
+                   else Some (fretry n st t (ak a) a rest 0 f1)
                end
       | FSleep k i, a :: rest =>
           if fmc tk then Some (fset st t (mkFTask (a :: rest) FDead false) (file st), [])
           else match k, file st with
-               | KW, Absent => Some (fenter st t a rest Fresh)
-               | KR, Absent => Some (fenter st t a rest Absent)
-               | _, f => Some (fretry n st t a rest (S i) f)
+               | KW, Absent => Some (fenter st t KW a rest Fresh)
+               | KR, Absent => Some (fenter st t KR a rest Absent)
+               | _, f => Some (fretry n st t k a rest (S i) f)
                end
       | FInR y, a :: rest =>
           if fmc tk then Some (fset st t (mkFTask rest FDead false) (file st), [FExit KR t])
